@@ -226,6 +226,11 @@ func init() {
 					add(src, "r", "", "") // integer constants of a non-canonical Go type
 				}
 			}
+			// constants of different types that print alike, in one program and across the programs of a run
+			for _, src := range []string{"(and (= 1 1) (= \"1\" 1) b0)", "(or (!= \"2\" 2) (!= 2 2) b0)", "(if (= true \"true\") 1 2)", "(and (in \"a\" (\"a\" \"b\")) (in \"a\" (\"a b\")) b0)",
+				"(or (= \"1\" 1) (= 1 1))", "(and (in 1 (1 2)) (in \"1\" (\"1\" \"2\")) (in \"1 2\" (\"1 2\")))", "(= (+ 1 1) \"2\")"} {
+				add(src, "v", "", "")
+			}
 			for _, src := range []string{"(= KI0 10)", "(if (= KI0 10) 1 2)", "(and (= KI0 KI1) b0)", "(or b0 (!= KI0 3))", "(eq KI0 KI0 7)", "(> (+ KI0 1) i0)"} {
 				add(src, "r", "", "")
 			}
@@ -932,7 +937,7 @@ func init() {
 					units = append(units, Unit{"VerifC11Keys", []string{itoa2(n), s}})
 				}
 			}
-			kinds := []string{"int", "int8", "int16", "int32", "int64", "uint8", "uint16", "uint32", "uint64", "bool", "string", "time", "duration", "ints", "int32s", "int64s", "strs"}
+			kinds := []string{"int", "int8", "int16", "int32", "int64", "uint8", "uint16", "uint32", "uint64", "bool", "string", "time", "duration", "ints", "int32s", "int64s", "strs", "ints0", "int32s0", "ints1"}
 			layouts := []string{"explicit:0,1,2", "explicit:0,255,7", "explicit:0,256,7", "explicit:-1,3,4", "explicit:255,254,253", "explicit:32767,1,2", "explicit:5,6,-32768", "explicit:300,301,302",
 				"symbolic-map", "hist:small:0:r", "hist:small:1:r", "hist:small:2:r", "hist:small:01:r", "hist:small:0:12", "hist:small:1:20", "hist:small:02:1", "hist:out:0:r", "hist:out:2:r", "hist:out:1:02", "hist:out:01:r", "register:012", "register:021", "register:102", "register:120", "register:201", "register:210", "regvarandop", "undefined", "evalfunc"}
 			for li, l := range layouts {
